@@ -465,7 +465,7 @@ BWD_SYM = dict(FWD_SYM, bsel="0,1,2", bsel2="0,1,3", bdiv="2,3", bloop="1,2", no
 
 def bwd_job(dom, prog, mode, tier, extra=None, budget=400):
     args = {"prog": prog, "mode": mode, "sym": BWD_SYM[prog]}
-    if dom != 1:
+    if dom != 1 or mode == "fb":
         args["sym"] = ",".join(args["sym"].split(",")[:2])
     if dom in MACHINE_WEIGHT:
         args["range"] = 3
@@ -500,7 +500,7 @@ def c02_jobs(tier, seed):
             J.append(Job("fwd", {"prog": pr, "wd": 1, "di": 1, "thr": 0, "live": 0, "sym": ",".join(BWD_SYM[pr].split(",")[:3 if d == 1 else 2])}, defines=("DOM=%d" % d,), budget=400,
                          what="intra_checker verdicts after forward analysis: %s on %s" % (pr, DOMS[d][0]), witnesses=1))
     # (2) checker on the forward+backward analysis, every fwd_bwd parameter setting
-    settings = [(1, 5, 0), (1, 1, 0), (1, 5, 1), (0, 5, 0)] if tier == "quick" else [(b, r, u) for b in (0, 1) for r in (0, 1, 2, 5) for u in (0, 1)]
+    settings = [(1, 5, 0), (1, 5, 1), (0, 5, 0)] if tier == "quick" else [(b, r, u) for b in (0, 1) for r in (0, 1, 2, 5) for u in (0, 1)]
     for pr in BWD_PROGS:
         for (b, r, u) in settings:
             for d in ((1, 2) if tier == "quick" else (1, 2, 3, 12)):
